@@ -700,17 +700,43 @@ def slice_len(m, cfg, f, args, t):
             s = s2
         elif isinstance(s2, Arr):
             return Int.const(len(s2.elems))
+        elif isinstance(s2, Atom):
+            s = s2
     if isinstance(s, Slice):
         return s.len
     if isinstance(s, Str):
         return Int.const(len(s.b))
     if isinstance(s, Atom):
-        key = 'len(%s)' % s.name
-        if key not in cfg.st.ranges:
-            cfg.st.ranges[key] = ((0, (1 << 63) - 1),)
-            cfg.st.symty[key] = 'usize'
-        return Int.sym(key)
+        return m.len_sym(cfg.st, s.name)
     return NotImplemented
+
+
+@prim('std::cell::RefCell::<T>::borrow')
+def refcell_borrow(m, cfg, f, args, t):
+    from .absint import Ref as R
+    nm = m.short_name(cfg.st, args[0])
+    key = ('cell', nm)
+    cfg.st.mem.setdefault(key, Atom('cell(%s)' % nm))
+    return R(key, ())
+
+
+@prim('std::cell::RefCell::<T>::try_borrow')
+def refcell_try_borrow(m, cfg, f, args, t):
+    from .absint import Ref as R
+    nm = m.short_name(cfg.st, args[0])
+    key = ('cell', nm)
+    cfg.st.mem.setdefault(key, Atom('cell(%s)' % nm))
+    return Fork([(None, ok(R(key, ()))), (None, err(Atom('BorrowError')))])
+
+
+@prim("<std::cell::Ref<'_, T> as std::ops::Deref>::deref")
+def cellref_deref(m, cfg, f, args, t):
+    a = args[0]
+    if isinstance(a, Ref):
+        v = m.read_path(cfg.st, a.key, a.path)
+        if isinstance(v, Ref):
+            return v
+    return a
 
 
 @prim('core::str::<impl str>::as_bytes')
@@ -742,9 +768,16 @@ def index_range(m, cfg, f, args, t):
                 n = tgt.n
             elif len(ra) > 2 and ra[2].isdigit():
                 n = int(ra[2])
-            if n is None:
+            if n is None and len(ra) > 2 and ra[2].isidentifier():
+                nm = 'const:%s' % ra[2]
+                if nm not in st.ranges:
+                    st.ranges[nm] = ((0, 1 << 40),)
+                    st.symty[nm] = 'usize'
+                ln, bref, data = Int.sym(nm), base, None
+            elif n is None:
                 return NotImplemented
-            ln, bref, data = Int.const(n), base, None
+            else:
+                ln, bref, data = Int.const(n), base, None
     else:
         return NotImplemented
     if 'RangeFull' in ity:
